@@ -6,7 +6,7 @@
    can issue in the state it arrives in (consecutive levels, re-reports of old levels after a
    resume without checkpointing, failures of running AND of just stopped/paused trials);
    the stop/continue answer of a rung and the choice of the promoted trial are arbitrary. *)
-From Verif Require Import model.Base model.SearcherData proofs.SearcherDataProofs.
+From Verif Require Import model.Base model.SearcherData model.Failure proofs.SearcherDataProofs proofs.FailureProofs.
 Open Scope Z_scope.
 
 (* At most one observation per (trial, level) — for EVERY event sequence, legal or not, every
@@ -127,6 +127,60 @@ Theorem c14_sync_at_most_one :
   forall all mx s e s', sync_step all mx s e = Ok s' -> NoDup (map fst (obs s)) -> NoDup (map fst (obs s')).
 Proof. exact sync_step_nodup. Qed.
 Print Assumptions c14_sync_at_most_one.
+
+(* Pending evaluations never reach beyond the level at which the job pauses / can be stopped next: for a promotion-type
+   trial every pending level lies in (last delivered level, milestone of the running job] -- whatever bracket was
+   sampled when it was resumed --; for a stopping-type trial no pending level jumps over a rung level of its bracket. *)
+Theorem c14_pending_bounded :
+  forall cfg h st, wf_config cfg = true -> legal_hist cfg init h -> run cfg init h = Ok st ->
+    forall t p, In (t, p) (pend (srch st)) ->
+      exists rec, find t (trials st) = Some rec /\ hi rec < p /\
+        match sty cfg with
+        | Promotion => exists ms rf, running rec = Some (ms, rf) /\ p <= ms
+        | Stopping => forall b m, task_bracket rec = Some b -> In m (skipn b (rung_levels cfg)) \/ m = max_t cfg ->
+                                  hi rec < m -> p <= m
+        end.
+Proof. exact pending_bounded. Qed.
+Print Assumptions c14_pending_bounded.
+
+(* The data the surrogate model is FITTED to (state converter cap_size_tuning_job_state, then
+   observed_data_for_metric), for every legal history, every cap (max_size_data_for_model) and every
+   down-sampling choice that returns cap of the current observations: the reduced state can always be constructed
+   (config_for_trial covers observed, pending and failed trials: no constructor assertion); it holds
+   min(#observations, cap) observations, each of them a CURRENT observation carrying the min-convention value of
+   the first report of its (trial, level); all of them when the cap is not exceeded; pending and failed lists are
+   copied. *)
+Theorem c14_fitted_data :
+  forall cfg h st choose cap, wf_config cfg = true -> legal_hist cfg init h -> run cfg init h = Ok st -> choose_ok choose ->
+    exists s', cap_state choose cap (map fst (trials st)) (srch st) = Some (map fst (trials st), s') /\
+      length (obs s') = Nat.min (length (obs (srch st))) cap /\
+      pend s' = pend (srch st) /\ failed s' = failed (srch st) /\
+      ((length (obs (srch st)) <= cap)%nat -> obs s' = obs (srch st)) /\
+      NoDup (map fst (obs s')) /\
+      forall t r c, In ((t, r), c) (obs s') ->
+        In ((t, r), c) (obs (srch st)) /\ exists v, lookup_rep (t, r) (first_reports h []) = Some v /\ (c == crit cfg v)%Q.
+Proof. exact fitted_data. Qed.
+Print Assumptions c14_fitted_data.
+
+(* ... and the rows handed to the model: exactly one row (configuration, level, value) per observation of the fitted
+   state, for ANY assignment of configurations to trials -- also when two trials share a configuration. *)
+Theorem c14_fitted_rows :
+  forall (C : Type) (config_of : Z -> C) s,
+    length (fitted_rows config_of s) = length (obs s) /\
+    (forall t r c, In ((t, r), c) (obs s) -> In (config_of t, r, c) (fitted_rows config_of s)) /\
+    (forall x, In x (fitted_rows config_of s) -> exists t r c, In ((t, r), c) (obs s) /\ x = (config_of t, r, c)).
+Proof. intros C config_of s. exact (fitted_rows_spec config_of s). Qed.
+Print Assumptions c14_fitted_rows.
+
+(* non-vacuity of the fitted-data theorems: keep the first [cap] observations; two trials with the same configuration *)
+Example c14_fitted_example :
+  choose_ok (fun l n => firstn n l) /\
+  let s := {| obs := [((0, 1), 1 # 2); ((1, 1), 1 # 4); ((0, 2), 1 # 8)]; pend := [(1, 2)]; failed := [2] |} in
+  cap_state (fun l n => firstn n l) 2 [0; 1; 2] s =
+    Some ([0; 1; 2], {| obs := [((0, 1), 1 # 2); ((1, 1), 1 # 4)]; pend := [(1, 2)]; failed := [2] |}) /\
+  cap_state (fun l n => firstn n l) 2 [0; 1] s = None /\
+  fitted_rows (fun _ : Z => 7) s = [(7, 1, 1 # 2); (7, 1, 1 # 4); (7, 2, 1 # 8)].
+Proof. split; [exact firstn_choose_ok | vm_compute; repeat split; reflexivity]. Qed.
 
 (* non-vacuity: promotion, rungs_and_last, two brackets' worth of levels; trial 0 is paused at 1,
    resumed without checkpointing (re-reports level 1), trial 1 fails, trial 0 completes *)
